@@ -79,18 +79,45 @@ def toDict (j : Json) : Option Dict :=
   | some (.dict d) => some d
   | _ => none
 
-def toBinKind : String → Option BinKind
+def contFirstName : ContFirst → String
+  | .empty => "empty"
+  | .num => "num"
+  | .hist => "hist"
+  | .pair => "pair"
+  | .list => "list"
+  | .elist => "elist"
+
+def toContFirst : String → Option ContFirst
+  | "empty" => some .empty
+  | "num" => some .num
+  | "hist" => some .hist
+  | "pair" => some .pair
+  | "list" => some .list
+  | "elist" => some .elist
+  | _ => none
+
+/-- bins that hold containers: `"<class>:<what stands at index 0>"` -/
+def toBinKind (s : String) : Option BinKind :=
+  match s with
   | "num" => some .num
   | "hist" => some .hist
   | "vec" => some .vec
   | "pair" => some .pair
-  | _ => none
+  | _ =>
+    match s.splitOn ":" with
+    | ["list", f] => (toContFirst f).map (BinKind.cont .list)
+    | ["tuple", f] => (toContFirst f).map (BinKind.cont .tuple)
+    | ["dict", f] => (toContFirst f).map (BinKind.cont .dict)
+    | _ => none
 
 def binKindName : BinKind → String
   | .num => "num"
   | .hist => "hist"
   | .vec => "vec"
   | .pair => "pair"
+  | .cont .list f => "list:" ++ contFirstName f
+  | .cont .tuple f => "tuple:" ++ contFirstName f
+  | .cont .dict f => "dict:" ++ contFirstName f
 
 partial def toData (j : Json) : Option Data :=
   match str? (getD j "k") with
@@ -269,10 +296,16 @@ def cellInnerOf (j : Json) : Option (Item → CellRes) :=
     | _ => none
   kind.map cellInnerApply
 
+/-- `select_bins=[classes]`: the classes of the listed kinds (`Selector` tests `isinstance` on the data part of
+the example bin) -/
 def binSel (j : Json) : Option (BinKind → Bool) :=
   match (arr? j).bind (fun a => a.toList.mapM (fun x => (str? x).bind toBinKind)) with
-  | some ks => some (fun k => ks.contains k)
+  | some ks => some (fun k => ks.any (fun k' => k'.cls == k.cls))
   | none => none
+
+/-- `MapBins(seq)` without `select_bins`: `lambda _: True` -/
+def mapBinSel (el : Json) : Option (BinKind → Bool) :=
+  if (bool? (getD el "default")).getD false then some (fun _ => true) else binSel (getD el "bins")
 
 /-! ### requests -/
 
@@ -282,6 +315,29 @@ def runJson {σ : Type} (getFS : σ → FS) (r : Run σ Item) : Json :=
   Json.mkObj [("blocks", ofBlocks r.blocks), ("tail", Json.arr #[]), ("fs", ofFS (getFS r.st)), ("err", ofErr r.err)]
 
 def sameBlocks (a b : List (List Item)) : Bool := (ofBlocks a).compress == (ofBlocks b).compress
+
+/-- IterateBins / MapBins: per flow value the example bin computed on the nested lists (`exampleOfHist`; null for
+a value that holds no histogram), and whether the loop body that tests it (`stepE`) runs like the transcribed one -/
+def exBinFields (stepE step : FS → Item → Step FS Item) (fs : FS) (flow : List Item) : List (String × Json) :=
+  let ex (v : Item) : Json :=
+    match v.data with
+    | .hist h =>
+      match exampleOfHist h.dim h.binsVal with
+      | .ok b => Json.str (binKindName (kindOfPyV b))
+      | .lenaIndexError => Json.str "err:LenaIndexError"
+      | .indexError => Json.str "err:Other:IndexError"
+      | .notAList => Json.str "err:unmodelled"
+    | _ => Json.null
+  let r := loop step fs flow
+  let rE := loop stepE fs flow
+  [("exbin", ofList ex flow),
+   ("exE_ok", Json.bool (sameBlocks r.blocks rE.blocks && (ofErr r.err).compress == (ofErr rE.err).compress))]
+
+def addFields (j : Json) (extra : List (String × Json)) : Json :=
+  match j with
+  | .obj _ => extra.foldl (fun acc (k, v) => acc.setObjVal! k v) j
+  | _ => j
+
 
 /-- run on the interleaved flow and on the selected values alone; `pred` is the right-hand side of the
 interleaving law, `sel` the selection predicate on every value of the interleaved flow -/
@@ -371,7 +427,7 @@ def stageOf (el : Json) : Option ((World → Item → Step World Item) × (Item 
   | some "h2g" => some (histToGraphStep (h2gCfgOf el), histToGraphSel)
   | some "iterbins" => (binSel (getD el "bins")).map (fun sb => (iterateBinsStep sb, iterateBinsSel sb))
   | some "mapbins" =>
-    match binSel (getD el "bins"), cellInnerOf (getD el "inner") with
+    match mapBinSel el, cellInnerOf (getD el "inner") with
     | some sb, some inner => some (mapBinsStep sb inner ((bool? (getD el "drop")).getD true), mapBinsSel sb)
     | _, _ => none
   | some "runif" =>
@@ -540,11 +596,15 @@ def handle (j : Json) : Json :=
     | some "h2g" => both (histToGraphRun (h2gCfgOf el)) histToGraphSel id fs p A B (some histToGraphDoc)
     | some "iterbins" =>
       match binSel (getD el "bins") with
-      | some sb => both (iterateBinsRun sb) (iterateBinsSel sb) id fs p A B
+      | some sb => addFields (both (iterateBinsRun sb) (iterateBinsSel sb) id fs p A B)
+          (exBinFields (iterateBinsStepE sb) (iterateBinsStep sb) fs (merge p A B))
       | none => err "bad iterbins spec"
     | some "mapbins" =>
-      match binSel (getD el "bins"), cellInnerOf (getD el "inner") with
-      | some sb, some inner => both (mapBinsRun sb inner ((bool? (getD el "drop")).getD true)) (mapBinsSel sb) id fs p A B
+      match mapBinSel el, cellInnerOf (getD el "inner") with
+      | some sb, some inner =>
+        let dc := (bool? (getD el "drop")).getD true
+        addFields (both (mapBinsRun sb inner dc) (mapBinsSel sb) id fs p A B)
+          (exBinFields (mapBinsStepE sb inner dc) (mapBinsStep sb inner dc) fs (merge p A B))
       | _, _ => err "bad mapbins spec"
     | some "runif" =>
       match toSel (getD el "sel"), innerOf (getD el "inner") with
